@@ -5,7 +5,7 @@ Each variant file is parsed in its own namespace by re-including it with all of 
 renamed by a prefix (the same device the C harness uses to link all variants side by side).
 """
 import os, re, hashlib
-from . import cfun, math_varargs
+from . import cfun, math_varargs, math_float
 from .cfun import GenError
 
 VARIANTS = [
@@ -17,7 +17,7 @@ VARIANTS = [
     ("ck", "clock.inl", "ck_", "Clock"),
 ]
 ASM = ("ax", "math.gcc_x64_asm.inl", "ax_", None)   # compiled, hand-modelled (not translatable)
-NOT_TRANSLATED = {"aws_min_float", "aws_max_float", "aws_min_double", "aws_max_double"}   # floating point: outside the subset
+NOT_TRANSLATED = {"aws_min_float", "aws_max_float", "aws_min_double", "aws_max_double"}   # floating point: outside cfun's subset, translated by gen/math_float.py
 DEFAULT_ORDER = ["ov", "bi", "mi", "ck"]   # what an un-prefixed call resolves to in this build configuration
 FUEL = 70   # every loop in these files runs at most 64 times
 
@@ -65,6 +65,7 @@ def generate(repo, cfg_inc, varargs=True):
     inc = includes(repo, cfg_inc)
     tu = tu_text(repo, VARIANTS)
     all_nodes = {}     # C prefixed name -> node
+    float_nodes = []
     for key, hdr, pre, ns in VARIANTS:
         nodes = cfun.dump_functions(tu, pre, inc)
         expected = [n for _, n, _ in cfun.inl_functions(os.path.join(repo, "include", "aws", "common", hdr))]
@@ -73,6 +74,9 @@ def generate(repo, cfg_inc, varargs=True):
                 raise GenError(f"{hdr}: function {n} not found in the AST")
         for n in expected:
             if n in NOT_TRANSLATED:
+                if pre + n not in nodes:
+                    raise GenError(f"{hdr}: function {n} not found in the AST")
+                float_nodes.append((key, ns, n, pre + n, nodes[pre + n]))
                 continue
             all_nodes[pre + n] = (key, ns, n, nodes[pre + n])
     enum_names = set()
@@ -135,6 +139,12 @@ def generate(repo, cfg_inc, varargs=True):
         chunks.append((ns, text))
         meta.append({"variant": key, "ns": ns, "name": name, "cname": cn, "info": info})
 
+    # floating-point min/max: own translator (gen/math_float.py)
+    for key, ns, name, cn, node in float_nodes:
+        text, info = math_float.translate(node, name)
+        chunks.append((ns, text))
+        meta.append({"variant": key, "ns": ns, "name": name, "cname": cn, "info": info})
+
     # source/math.c (variadic checked sum): own translator, own namespace
     va_names = []
     if varargs:
@@ -192,6 +202,14 @@ def generate(repo, cfg_inc, varargs=True):
         else:
             rhs = f"some s!\"val {{{call}}}\""
         d.append(f"  | \"{m['variant']}\", \"{m['name']}\", [{pats}] => {rhs}")
+        if info["kind"] == "value" and info["outs"]:
+            # the same function called with NULL for its optional out-parameter
+            call0 = call.replace(" true", " false")
+            if info["abort"]:
+                rhs0 = f"some (match {call0} with | some (r, o) => s!\"val {{r}}\" | none => \"abort\")"
+            else:
+                rhs0 = f"some (let (r, o) := {call0}; s!\"val {{r}}\")"
+            d.append(f"  | \"{m['variant']}\", \"{m['name']}:null\", [{pats}] => {rhs0}")
     d.append("  | _, _, _ => none")
     d.append("")
     d.append("/-- variadic functions of source/math.c: `num`, then the arguments actually passed (possibly more than `num`) -/")
@@ -236,7 +254,11 @@ def c_dispatch(repo, meta):
                 args.append("&out")
             else:
                 args.append(f"({CT[p[1]]})a[{j}]"); j += 1
-        if info["kind"] == "status":
+        if info.get("float"):
+            ft, ut = info["float"], UT[info["ret"][0]]
+            body = (f"union {{ {ft} f; {ut} u; }} x, y, z; x.u = ({ut})a[0]; y.u = ({ut})a[1]; z.f = {m['cname']}(x.f, y.f); "
+                    f'printf("P val %llu\\n", (unsigned long long)z.u); return 1;')
+        elif info["kind"] == "status":
             ot = CT[[p for p in info["params"] if p[1][0] == "ptr"][0][1][1]]
             body = (f"{ot} out = ({ot})0xDEADBEEFDEADBEEFULL; aws_reset_error(); int rc = {m['cname']}({', '.join(args)}); "
                     f'if (rc == 0) printf("P ok %llu\\n", (unsigned long long)out); else printf("P err %d\\n", aws_last_error()); return 1;')
@@ -248,5 +270,11 @@ def c_dispatch(repo, meta):
             body = (f"unsigned long long r = (unsigned long long)({UT[info['ret'][0]]}){m['cname']}({', '.join(args)}); "
                     f'printf("P val %llu\\n", r); return 1;')
         out.append("    " + cond + " " + body + " }")
+        if info["kind"] == "value" and info["outs"]:
+            cond0 = cond.replace(f'"{m["name"]}")', f'"{m["name"]}:null")')
+            args0 = ["NULL" if a == "&out" else a for a in args]
+            body0 = (f"unsigned long long r = (unsigned long long)({UT[info['ret'][0]]}){m['cname']}({', '.join(args0)}); "
+                     f'printf("P val %llu\\n", r); return 1;')
+            out.append("    " + cond0 + " " + body0 + " }")
     out.append("    return 0;\n}")
     return "\n".join(out) + "\n", entries
